@@ -170,7 +170,7 @@ def resolve_value(value, recursive=True):
     """Resolve the current value of a dynamic reference."""
     if not recursive:
         pass
-    elif isinstance(value, (list, tuple)):
+    elif isinstance(value, (list, tuple, set)):
         return type(value)(resolve_value(v) for v in value)
     elif isinstance(value, dict):
         return type(value)((resolve_value(k), resolve_value(v)) for k, v in value.items())
